@@ -6,11 +6,12 @@ import typing as t
 
 from hypothesis import strategies as st
 
-from .. import absval, gens, msgcheck
+from .. import absval, gens, msgcheck, twins
 from ..engine import QUICK, THOROUGH, Ctx, Part, Property, Violation
 
 
-def check_roundtrip(m: t.Dict[str, t.Any], tail: bytes, ctx: Ctx) -> t.List[Violation]:
+def check_roundtrip(m: t.Dict[str, t.Any], tail: bytes, ctx: Ctx, x: t.Any = None) -> t.List[Violation]:
+    """x: an already built (and possibly already used) library object whose projection is ``m``"""
     kind = m["kind"]
     classes = msgcheck.message_classes(m)
     for c in classes:
@@ -20,7 +21,8 @@ def check_roundtrip(m: t.Dict[str, t.Any], tail: bytes, ctx: Ctx) -> t.List[Viol
         ctx.nontrivial(m)
     opts = absval.default_options()
     try:
-        x = absval.to_lib(m)
+        if x is None:
+            x = absval.to_lib(m)
         ax = absval.to_abstract(x)
         b = x.pack(opts)
     except Exception as e:
@@ -63,6 +65,58 @@ class Messages(Part):
 
     def check(self, case: t.Any, ctx: Ctx) -> t.List[Violation]:
         return check_roundtrip(case["m"], case["tail"], ctx)
+
+
+class Twins(Part):
+    """State that survives between calls (memo tables keyed on too little, identity-keyed caches, reused buffers)."""
+
+    name = "twins"
+    examples = {QUICK: 700, THOROUGH: 12000}
+
+    def strategy(self, tier: str) -> t.Any:
+        return st.fixed_dictionaries({"m": st.one_of(gens.message(), gens.message(kinds=["searchRequest"])), "mode": st.sampled_from(twins.MODES),
+                                      "mask": st.one_of(st.just(0xFFFF), st.integers(0, 0xFFFF), st.sampled_from([1, 2, 4, 8, 16, 32]))})
+
+    def check(self, case: t.Any, ctx: Ctx) -> t.List[Violation]:
+        return check_twins(case, ctx, lambda m, x=None: check_roundtrip(m, b"", ctx, x), unpack=True)
+
+
+def check_twins(case: t.Any, ctx: Ctx, oracle: t.Callable[..., t.List[Violation]], unpack: bool) -> t.List[Violation]:
+    a = case["m"]
+    b = twins.twin(a, case["mode"], case["mask"])
+    ctx.event(f"twin:{case['mode']}:{'differs' if b != a else 'identical'}")
+    opts = absval.default_options()
+    try:
+        # the twin goes first
+        data = absval.to_lib(b).pack(opts)
+        if unpack:
+            absval.lib_unpack(data, opts)
+    except Exception:
+        ctx.event("twin-raised")
+    def tag(v: Violation, label: str, what: str) -> Violation:
+        # encoding deviations are labelled by where in the encoding they sit, whatever happened before
+        return Violation(v.key if v.key.startswith("deviation=") else f"{label}:{v.key}", f"{what}: {v.detail}")
+
+    out = [tag(v, "after-twin", f"after processing the twin {b!r}") for v in oracle(a)]
+    if not out and b != a:
+        ctx.extra_evaluations += 1
+        out = [tag(v, "after-twin", f"after processing {a!r}") for v in oracle(b)]
+    if out:
+        return out
+    # the object that was just packed is edited in place (its list fields take the twin's elements) and packed again
+    try:
+        la = absval.to_lib(a)
+        la.pack(opts)
+        n = twins.inplace_mix(la, absval.to_lib(b))
+        mixed = absval.to_abstract(la)
+    except Exception:
+        ctx.event("in-place-edit-raised")
+        return out
+    if n and not absval.has_marker(mixed):
+        ctx.event("in-place-edit")
+        ctx.extra_evaluations += 1
+        out = [tag(v, "after-in-place-edit", f"object packed as {a!r}, then edited in place to {mixed!r}") for v in oracle(mixed, la)]
+    return out
 
 
 class Boundary(Part):
@@ -155,10 +209,14 @@ PROP = Property(
         "length boundaries) packed with default PackingOptions; plus a complete sweep of every str/bytes field of every "
         "kind over the length-boundary sizes and over a list of values that code tends to special-case ('*', NUL, 'dn', known OIDs, attribute names with options, normalisation-sensitive text). Oracle: unpack gives an equal plain-data projection (enum by .value, exact "
         "types; known-control raw value ignored but must be exposed as bytes), exactly the tail remains, re-pack "
-        "reproduces the bytes; thorough adds an atheris campaign on message values obtained by decoding fuzzed bytes. Non-trivial = >=1 control, a field >=128 octets, filter depth >=2, an int <0 or >=2^31, an "
+        "reproduces the bytes; part twins: a near-collision twin of the message (text leaves changed only in case / "
+        "normalisation form / padding / beyond a short prefix) is packed and unpacked first, then the message is checked, "
+        "then the already packed object is edited in place (list fields take the twin's elements) and checked again - "
+        "state surviving between calls (memo tables keyed on too little, identity-keyed caches) shows up as a wrong "
+        "round trip; thorough adds an atheris campaign on message values obtained by decoding fuzzed bytes. Non-trivial = >=1 control, a field >=128 octets, filter depth >=2, an int <0 or >=2^31, an "
         "unknown result code, or an empty-but-present optional; distinct by abstract value."
     ),
-    parts=[Messages(), Boundary(), FuzzDecoded()],
+    parts=[Messages(), Boundary(), Twins(), FuzzDecoded()],
     assumptions=[
         "strings are Unicode text without lone surrogates (cannot be UTF-8 encoded)",
         "generic controls never carry a library-known OID; scope in 0..2 and derefAliases in 0..3 (the enum types)",
